@@ -2,8 +2,10 @@ import Chess.Model.Text
 import Chess.Model.Search
 import Chess.Model.SearchF
 import Chess.Model.Uci
+import Chess.Model.Go
 import Chess.Spec.Rules
 import Chess.Spec.Fen
+import Chess.Spec.Mates
 import Chess.Lemmas.AlphaBeta
 import Chess.Lemmas.AlphaBetaClamp
 
@@ -184,6 +186,18 @@ def runOp (ctx : Ctx) (line : String) : Ctx × List String :=
         (if side == "w" then Player.white else Player.black) (fun _ => share.toNat?.getD 0)
       (ctx, [match r with | some t => s!"time {t}" | none => "notimer"])
     | _ => (ctx, ["badargs"])
+  | "gocmd" =>
+    -- gocmd <w|b> <share of the mover's clock> <the words after `go`, verbatim>
+    match args with
+    | side :: share :: _ =>
+      let words := (splitWs restL).drop 2
+      let pl := if side == "w" then Player.white else Player.black
+      let r := Uci.goBudget words pl (fun _ => share.toNat?.getD 0)
+      let a := Uci.goArgs words
+      let f := fun (x : Option Nat) => match x with | some v => toString v | none => "-"
+      (ctx, [(match r with | some t => s!"time {t}" | none => "notimer") ++
+        s!" limit {Uci.goLimit words} args {f a.wtime} {f a.btime} {f a.winc} {f a.binc} {f a.depth} {f a.movetime} {if a.infinite then 1 else 0}"])
+    | _ => (ctx, ["badargs"])
   -- ---- specification evaluated on given text (independent of the model) ----
   | "spec_class" => (ctx, [specClass restL])
   | "spec_legal" =>
@@ -232,6 +246,18 @@ def runOp (ctx : Ctx) (line : String) : Ctx × List String :=
         (Spec.legalList b).isEmpty && Spec.inCheck b b.side)
       (ctx, [specMoves mates])
     | none => (ctx, ["unparsable"])
+  | "spec_mate" =>
+    -- spec_mate <n> <fen>: shortest forced mate within n moves (or -), then the moves that keep a
+    -- mate of that length, then the moves that keep a mate within n moves
+    match args with
+    | ns :: _ =>
+      match ns.toNat?, Spec.fenLoose (restL.drop (ns.length + 1)) with
+      | some n, some a =>
+        match Spec.mateLength n a with
+        | some k => (ctx, [s!"{k} | {specMoves (Spec.keepMoves k a)} | {specMoves (Spec.keepMoves n a)}"])
+        | none => (ctx, ["- | 0  | 0 "])
+      | _, _ => (ctx, ["unparsable"])
+    | _ => (ctx, ["badargs"])
   | "spec_status" =>
     -- number of legal moves and whether the side to move is in check
     match Spec.fenLoose restL with
